@@ -90,6 +90,8 @@ ARGVS = {
     'o': ['-o', 'out.bin'],
     'o_l': ['-o', 'out.bin', '-l', 'labels.txt'],
     'l_hex': ['-l', 'labels.txt', '--hex-offset', '0x08000000'],
+    'hex_dec': ['-o', 'out.bin', '--hex-offset', '4096'],
+    'hex_bin': ['--hex-offset', '0b1000000000000', '-l', 'labels.txt'],
     'o_hex_bad': ['-o', 'out.bin', '--hex-offset', 'zzz'],
     'hex_bad_l': ['--hex-offset', '12q', '-l', 'labels.txt'],
     'i_dir': ['-i', '../src/inc', '-o', 'out.bin'],
